@@ -262,18 +262,52 @@ def eval_model(ck, cases, shard=40):
                "Import ListNotations.\nDefinition cases : list ccase := [\n%s\n].\n"
                "Definition M := Eval vm_compute in mismatches cases.\nPrint M.\n") % ";\n".join(ccase(c) for c in chunk)
         files.append(("c11cases%d" % (i // shard), txt))
+    # canary: 20 copies of a case whose first routed row is recorded in a shard that does not exist MUST all be reported
+    # (20: the printed list is then wrapped over several lines, as real results are)
+    NCAN = 20
+    canary = None
+    for c in cases:
+        k = next((k for k, p in enumerate(c["points"]) if not p["err"]), None)
+        if k is not None:
+            bad = dict(c, points=[dict(p, sid=987654321) if j == k else p for j, p in enumerate(c["points"])])
+            canary = ("From Coq Require Import ZArith NArith List Bool. From OG Require Import C11.Model C11.Corr.\n"
+                      "Import ListNotations.\nDefinition cases : list ccase := [\n%s\n].\n"
+                      "Definition M := Eval vm_compute in mismatches cases.\nPrint M.\n") % ";\n".join([ccase(bad)] * NCAN)
+            files.append(("c11canary", canary))
+            break
     res = ck.coq_eval_many(files, timeout=1200)
-    out = {}
-    okall = True
-    for idx, (rc, o) in enumerate(res):
-        m = re.search(r"M\s*=\s*(.*?)\n\s*:\s*list", o, re.S)
+
+    def tuples(rc, o):
+        """{case index in the shard: (codes, mask)} or None when the evaluation failed / a printed tuple could not be read
+        (the printer breaks lines anywhere, also right after an opening parenthesis, and adds scope suffixes)"""
+        m = re.search(r"M\s*=\s*(.*?)\s*:\s*list", o, re.S)
         if rc != 0 or not m:
+            return None
+        body = re.sub(r"%\w+", "", re.sub(r"\s+", "", m.group(1)))
+        found = re.findall(r"\((\d+),\[([\d;]*)\],(\d+)\)", body)
+        if len(found) != body.count("("):
+            return None
+        return {int(a): ([int(x) for x in codes.split(";") if x], int(mask)) for a, codes, mask in found}
+
+    okall = True
+    if canary is not None:
+        rc, o = res.pop()
+        got = tuples(rc, o)
+        if got is None or any(i not in got or not (got[i][0] or got[i][1] == 0) for i in range(NCAN)):
+            ck.broken.append("C11 canary: a corrupted case was not reported by the model evaluation (%d copies of a case with a row "
+                             "recorded in a shard that does not exist; read back: %s)" % (NCAN, o[-300:] if got is None else sorted(got.items())[:NCAN]))
+            okall = False
+    elif cases and not getattr(ck, "replay", None):
+        ck.broken.append("C11 canary: no case with a routed row to build the corrupted case from")
+    out = {}
+    for idx, (rc, o) in enumerate(res):
+        got = tuples(rc, o)
+        if got is None:
             ck.broken.append("model evaluation failed on shard %d: %s" % (idx, o[-500:]))
             okall = False
             continue
-        body = re.sub(r"%\w+", "", m.group(1))
-        for a, codes, mask in re.findall(r"\((\d+),\s*\[([^\]]*)\],\s*(\d+)\)", body):
-            out[idx * shard + int(a)] = ([int(x) for x in re.findall(r"\d+", codes)], int(mask))
+        for a, v in got.items():
+            out[idx * shard + a] = v
     return out, okall
 
 
